@@ -140,8 +140,14 @@ def gen_scenario(rng, conflict=None):
             ([{"op": "dereg_c2"}], [{"op": "reg_c2"}, {"op": "unsub", "pre": 0}, {"op": "unsub", "pre": 1}]),
             ([{"op": "attend"}], [{"op": "dereg_c2"}, {"op": "reg_c2"}, {"op": "subscribe"}]),
             ([{"op": "attend"}, {"op": "attend"}], [{"op": "dereg_c2"}, {"op": "reg_c2"}, {"op": "subscribe"}, {"op": "add"}]),
+            # fault injection: the storage back-end fails the first removal (inside a provider's delete / inside garbage collection)
+            ({"op": "delete", "pre": live1, "_fault": 1}, {"op": "query"}),
+            ({"op": "gc", "_fault": 1}, {"op": "add"}),
         ]
         pair = pairs[conflict % len(pairs)]
+        fault_n = next((o["_fault"] for o in pair if isinstance(o, dict) and "_fault" in o), None)
+        if fault_n:
+            pair = tuple({k_: v_ for k_, v_ in o.items() if k_ != "_fault"} for o in pair)
         if rng.random() < 0.5:
             pair = pair[::-1]
         if isinstance(pair[0], list):
@@ -160,8 +166,14 @@ def gen_scenario(rng, conflict=None):
                 if "pre" in o and o["op"] == "unsub":
                     o["pre"] = min(o["pre"], pre["subs"] - 1)
         focus = "conflict"
-    return {"service": rng.choice(("Reactive", "Threads")), "maint": rng.choice(("Reactive", "Thread")), "pre": pre, "actors": actors,
-            "adv": rng.random() < 0.5, "focus": focus}
+    sc = {"service": rng.choice(("Reactive", "Threads")), "maint": rng.choice(("Reactive", "Thread")), "pre": pre, "actors": actors,
+          "adv": rng.random() < 0.5, "focus": focus}
+    if conflict is None and rng.random() < 0.2 and any(o["op"] in ("delete", "gc") for a in actors for o in a):
+        sc["storage_fault_on_remove"] = rng.choice((1, 1, 2))
+    if conflict is not None and fault_n:
+        sc["storage_fault_on_remove"] = fault_n
+        sc["maint"] = rng.choice(("Thread", "Thread", "Reactive"))
+    return sc
 
 
 class Ctx:
@@ -251,8 +263,15 @@ def build(spec):
 
         def logged_remove(data_object):
             t0 = tick()
-            ok = orig_remove(data_object)
             enc = ctx.cur.get(threading.get_ident())
+            ctx.remove_calls = getattr(ctx, "remove_calls", 0) + 1
+            if spec.get("storage_fault_on_remove") == ctx.remove_calls:
+                # fault injection: the storage back-end fails this one removal (damaged record, concurrent writer of a file store)
+                ctx.storage_faults = getattr(ctx, "storage_faults", 0) + 1
+                if enc is not None:
+                    enc["faulted"] = True
+                raise KeyError("storage error (injected)")
+            ok = orig_remove(data_object)
             try:
                 sid, ver = data_object["dataObject"]["header"]["stationId"], data_object["dataObject"]["cam"]["generationDeltaTime"]
             except Exception:  # noqa
@@ -491,6 +510,8 @@ def obj_step(doomed):
         if k == "del":
             if o["res"] == 0:
                 return [("a",)] if st[0] == "p" else []
+            if o.get("faulted"):
+                return [st]           # the store refused the removal: FAILED with the object left in place is the right answer
             return [st] if st[0] != "p" else []
         if k == "gc":
             return [("a",)] if st[0] == "p" else []
@@ -561,6 +582,8 @@ def judge(ctx, res):
     out, spec = ctx.out, ctx.spec
     if out.get("timeout"):
         return None
+    if getattr(ctx, "storage_faults", 0):
+        res.count("executions_with_a_storage_fault_on_remove")
     bad = []
     if out["deadlock"]:
         bad.append(("deadlock", f"all live actors blocked: {out.get('blocked')}"))
@@ -603,7 +626,7 @@ def judge(ctx, res):
             elif o["kind"] == "upd":
                 h.append({"k": "upd", "res": o["res"], "v": o["ver"], "call": o["call"], "ret": o["ret"]})
             elif o["kind"] == "del":
-                h.append({"k": "del", "res": o["res"], "call": o["call"], "ret": o["ret"]})
+                h.append({"k": "del", "res": o["res"], "call": o["call"], "ret": o["ret"], "faulted": bool(o.get("faulted"))})
         for r in ctx.removes:
             if r["sid"] == sid and r["ok"] and r["by"] != "del":
                 if not info["doomed"]:
@@ -763,7 +786,7 @@ def one(spec, plan, policy, res, mode, log_from=None, instr_points=True):
 
 
 # -------------------------------------------------------------------------------------------------- driver
-N_CONFLICT_PAIRS = 18
+N_CONFLICT_PAIRS = 20
 BUDGET = {"quick": {"sync": 500, "instr": 500, "random": 200}, "thorough": {"sync": 10000, "instr": 6000, "random": 4000}}
 NSHARD = {"quick": {"sync": 2, "instr": 3, "random": 2}, "thorough": {"sync": 4, "instr": 6, "random": 4}}
 # the directed two-actor conflicts are small: one shard per mode explores them
@@ -782,7 +805,7 @@ def shards(tier, seed):
     for j in range(N_CONFLICT_PAIRS * (1 if tier == "quick" else 3)):
         spec = gen_scenario(rng, conflict=j)
         for mode in ("sync", "instr", "random"):
-            multi = j % N_CONFLICT_PAIRS >= 14 and any(len(a) >= 3 for a in spec["actors"][:2])
+            multi = 14 <= j % N_CONFLICT_PAIRS < 18 and any(len(a) >= 3 for a in spec["actors"][:2])
             # the multi-step conflicts need three context switches at the right places: a larger budget, split over shards
             nsh = 4 if multi and mode != "instr" else 1
             for sh in range(nsh):
